@@ -326,7 +326,16 @@ pub fn c06(seed: u64, tier: Tier) -> Vec<Episode> {
 
 /// buffer settings including ones small enough to force eviction
 fn tight_buf(r: &mut Rng) -> Buf {
-    r.pick(&[Buf::Auto, Buf::Auto, Buf::Size(262144), Buf::Size(300000), Buf::PerMille(1000), Buf::Size(131072), Buf::Size(4096), Buf::Size(0)]).clone()
+    match r.below(10) {
+        0..=2 => Buf::Auto,
+        3 => Buf::PerMille(1000),
+        4..=6 => Buf::Size(*r.pick(&[0u32, 1, 4095, 4096, 8192, 10_000, 65_536, 100_000, 131_071, 131_072, 200_000, 262_143, 262_144, 300_000, 393_216, 524_288, 1_048_576])),
+        _ => {
+            // log-uniform size up to 2 MiB
+            let bits = r.range(3, 21);
+            Buf::Size(((1u64 << bits) + r.below(1u64 << bits)) as u32)
+        }
+    }
 }
 
 /// the one region excluded from general generation (DESIGN §6, D6): a PerMille(p<1000) budget
